@@ -228,14 +228,26 @@ class XPath2Parser(XPath1Parser):
             self.token.unexpected(':')
             token = self.token
 
+            # The text of a comment is not tokenized (it can contain quotes and
+            # colons): the raw source is scanned for the end of the comment.
+            assert self.next_match is not None
+            position = self.next_match.end()
             comment_level = 1
             while comment_level:
-                self.advance_until('(:', ':)')
-                if self.next_token.symbol == ':)':
-                    comment_level -= 1
-                else:
+                start, end = self.source.find('(:', position), self.source.find(':)', position)
+                if end < 0:
+                    self.tokens = iter(())  # unterminated comment
+                    super(XPath2Parser, self).advance()
+                    raise self.next_token.wrong_syntax()
+                elif 0 <= start < end:
                     comment_level += 1
-            self.advance(':)')
+                    position = start + 2
+                else:
+                    comment_level -= 1
+                    position = end + 2
+
+            self.tokens = iter(self.tokenizer.finditer(self.source, position))
+            self.advance()  # loads the token that follows (and skips other comments)
 
             self.next_token.unexpected(':')
             self.token = token
